@@ -1,4 +1,6 @@
 import BertE.Lemmas.StepAll
+import BertE.Lemmas.QValidateEval
+import BertE.Lemmas.SelectEx
 import BertE.Drv.C01
 /-
 C01 — forward-port inclusion of destination branches is an invariant.
@@ -180,5 +182,166 @@ example :
     let s2 := (step s1 (.evalPr ⟨1, "feature/x", .dev 4 (some 3)⟩ .final [] [])).1
     (s2.remote.get (.dest (.dev 4 (some 3))), s2.remote.get (.dest (.dev 5 (some 1)))) = (some 3, some 4)
       ∧ s2.g.le 3 4 = true := by decide
+
+/-! ### the queue selection computed, not assumed (composition with the model of `QueueCollection._process`)
+
+`Select.EventB` are the events of a history in which no selection is an input: a queue evaluation
+(`.queues b force`) and a pull-request evaluation (`.pr b p stage orc`) carry the build statuses `b` the git host
+reports at that moment, and the pull requests that are merged are `Select.selectOf s b force` — the model of
+`QueueCollection._process` run on the collection, the merge paths and the statuses of the state `s`
+(`Model/Select.lean`). `Select.AdmB` asks of a queue evaluation only `Select.Validated s` (pull-request ids are
+positive and what `validate()` checks of the queue branches before `_process` may run); the side condition
+`DownClosed` of `Adm` is PROVED of the computed selection (`Select.downClosed_selectOf`, from C05). -/
+
+open BertE.Select in
+/-- **C01, one event, selection computed.** Every event of a history whose queue evaluations select what the
+    model of `QueueCollection` computes from ANY build statuses — with or without force merge — preserves
+    inclusion and the invariant. No hypothesis about the selection. -/
+theorem C01_step_closed (s : Sys) (h : Inv s) (ev : EventB) (hadm : AdmB s ev) :
+    (step s (ev.toEvent s)).1.Incl ∧ Inv (step s (ev.toEvent s)).1 :=
+  ⟨(stepB_inv h ev hadm).incl, stepB_inv h ev hadm⟩
+
+open BertE.Select in
+/-- **C01, every finite history, selections computed**: inclusion holds after every single event, whatever build
+    statuses the host reports at each queue evaluation. -/
+theorem C01_run_closed (s : Sys) (h : Inv s) (evs : List EventB) (hadm : AdmAllB s evs) :
+    ∀ k, (runB s (evs.take k)).Incl :=
+  fun k => (runB_inv _ h (admAllB_take evs s hadm k)).incl
+
+open BertE.Select in
+/-- the `DownClosed` condition of `Adm` holds of the computed selection -/
+theorem C01_adm_closed (s : Sys) (h : Inv s) (hv : Validated s) (b : Builds) (force : Bool) :
+    Adm s (evalQueuesB s b force) :=
+  downClosed_selectOf h hv b force
+
+open BertE.Select in
+/-- Non-vacuity: the history `exHistory` (two branches, two pull requests queued through `.pr` events) is
+    admissible from the empty repository; continued by a queue evaluation under `exBuilds` (first pull request
+    green, second FAILED) it stays admissible, the evaluation selects exactly the first pull request and moves
+    both branches. -/
+example : AdmAllB exEmpty (exHistory ++ [.queues exBuilds false]) ∧
+    selectOf exSys exBuilds false = [1] ∧
+    ((step exSys (evalQueuesB exSys exBuilds false)).1.remote.get (.dest (.dev 4 (some 3))),
+     (step exSys (evalQueuesB exSys exBuilds false)).1.remote.get (.dest (.dev 5 (some 1))),
+     (step exSys (evalQueuesB exSys exBuilds false)).1.queue.map (·.pr)) = (some 1, some 1, [2]) := by
+  refine ⟨?_, exSys_select.1, ?_⟩
+  · have happ : ∀ (a c : List EventB) (s : Sys), AdmAllB s a → AdmAllB (runB s a) c → AdmAllB s (a ++ c) := by
+      intro a
+      induction a with
+      | nil => intro c s _ hc; exact hc
+      | cons e es ih => intro c s ha hc; exact ⟨ha.1, ih c _ ha.2 hc⟩
+    exact happ _ _ _ exHistory_adm ⟨exSys_validated, trivial⟩
+  · have hev : evalQueuesB exSys exBuilds false = .evalQueues [1] := by
+      unfold evalQueuesB; rw [exSys_select.1]
+    rw [hev]
+    decide
+
+example := C01_step_closed Select.exSys Select.exSys_inv (.queues Select.exBuilds true) Select.exSys_validated
+example := C01_run_closed Select.exEmpty (by
+    refine ⟨⟨empty_WF, ?_, List.Pairwise.nil, ?_⟩, ?_, QInv.of_empty rfl (fun _ => rfl)⟩
+    · intro r c hc; cases hc
+    · intro M m c hc; cases hc
+    · intro a b _ ca cb hca; cases hca) Select.exHistory Select.exHistory_adm
+
+end BertE.C01
+
+/-! ### Work package QValidate: queue merges are safe in ANY state of the remote
+
+`C01_step` / `C01_run` carry inclusion through queue merges under the inductive queue invariant - what the
+robot's own queueing establishes. A crash or a refused ref in the middle of `add_to_queue`, a third party
+touching `q/*` refs, a destination advancing behind the queue: in those states the code relies on
+`QueueCollection.validate()`. `Model/QValidate.lean` models the collection as the code builds it from the
+remote refs, `validate()` with its error list, and `handle_merge_queues` guarded by it (`evalQueues`).
+NO hypothesis about the `q/*` refs below; `CascadeOK` (every stabilization branch has its development
+branch: `BranchCascade.validate`, kept by `create_branch`/`delete_branch`) is the only hypothesis beyond
+well-formedness and inclusion, and `C01_queue_validated_needs_cascade` shows that it cannot be dropped. -/
+namespace BertE.C01
+open BertE.Git BertE.Flow BertE.QV
+
+/-- **Soundness of `validate()`** (the lemma planned in DESIGN section 6, "validate qs = ok → Consistent qs"): if
+    the modelled validation reports no error on the collection built from the remote, then on every version the
+    master queue exists, the queue commits form a chain above the destination's tip, and along the cascade every
+    queue commit is contained in a queue commit of the same pull request on every later destination. -/
+theorem C01_validate_sound (s : Sys) (hs : s.WF) (hc : CascadeOK s) (hv : validated s = true) :
+    Validated s (build s.g s.remote) := by
+  obtain ⟨paths, hp, hval⟩ := (qv_validated_iff s).mp hv
+  exact qv_validate_sound hs hc hp hval
+
+/-- **C01, queue evaluation in any state.** For EVERY state with a well-formed graph and inclusion - whatever the
+    `q/*` refs are - and every selection `sel` of pull requests (whatever `_process` computes from the build
+    statuses) and every set `wgone` of integration branches cleaned up:
+    * if `validate()` reports an error (or another exception escapes) the evaluation contains no operation;
+    * every operation of the evaluation is safe for inclusion (`Op.Safe`: one atomic pruning push whose content
+      satisfies inclusion), hence inclusion holds at every crash prefix `k` and for every refused ref;
+    * no commit is created: every destination update is a fast-forward to an existing commit. -/
+theorem C01_queue_validated (s : Sys) (hs : s.WF) (hincl : s.Incl) (hc : CascadeOK s) (sel : List Nat)
+    (wgone : List (Dest × String)) (rej : Ref → Bool) (k : Nat) :
+    (validated s = false → (evalQueues s sel wgone).ops = []) ∧
+    (∀ op ∈ (evalQueues s sel wgone).ops, op.Safe (evalQueues s sel wgone).g) ∧
+    (evalQueues s sel wgone).g = s.g ∧
+    InclOn (evalQueues s sel wgone).g (observable s (evalQueues s sel wgone) rej k) ∧
+    (∀ d o n, s.remote.get (.dest d) = some o →
+      (observable s (evalQueues s sel wgone) rej k).get (.dest d) = some n → s.g.le o n = true) := by
+  obtain ⟨hg, hops, hnone⟩ := qv_evalQueues_spec hs hincl hc sel wgone
+  have hsafe := qv_evalQueues_safe hs hincl hc sel wgone
+  refine ⟨hnone, hsafe, hg, ?_, ?_⟩
+  · exact incl_of_safe hs hincl (by rw [hg]; exact Extends.refl _) hsafe rej k
+  · intro d o n ho hn
+    have h1 := (qv_evalQueues_oneShot hs hincl hc sel wgone).observable (evalQueues s sel wgone).g
+      (fun _ => rej) k s.remote
+    have hobs : observable s (evalQueues s sel wgone) rej k =
+        applyOpsAt (evalQueues s sel wgone).g (fun _ => rej) 0 s.remote ((evalQueues s sel wgone).ops.take k) := by
+      unfold observable; exact (applyOpsAt_const _ rej _ 0 s.remote).symm
+    rw [hobs] at hn
+    rcases h1 with h | ⟨_, hf⟩
+    · rw [h d, ho] at hn
+      simp only [Option.some.injEq] at hn; subst hn
+      exact le_refl hs.g (hs.valid _ _ ho)
+    · exact hf.grow d o n ho hn
+
+/-- **C01, pull-request evaluation with its validation guard, any state**: the counterpart of `C01_evalPr`
+    without the hypothesis `QueueSafe` - a pull request found already queued runs the guarded queue evaluation,
+    and `add_to_queue` is entered only after `validate()` passed. -/
+theorem C01_evalPr_validated (s : Sys) (hs : s.WF) (hincl : s.Incl) (hc : CascadeOK s) (pr : PrInfo) (stage : Stage)
+    (orc : List Bool) (sel : List Nat) (wgone : List (Dest × String)) (rej : Ref → Bool) (k : Nat) :
+    InclOn (planPrV s pr stage orc sel wgone).g (observable s (planPrV s pr stage orc sel wgone) rej k) :=
+  incl_of_safe hs hincl (qv_planPrV_gext hs hincl hc pr stage orc sel wgone).ext
+    (qv_planPrV_safe hs hincl hc pr stage orc sel wgone) rej k
+
+/-- A half-written queue (what a refusal of `q/5.1` in the push of `add_to_queue` leaves behind: `q/w/1/5.1/…` is
+    there, `q/5.1` still on the tip of development/5.1): the validation fails and nothing is done. -/
+def qvHalf : Sys :=
+  ⟨⟨[[0], [0, 1], [0, 1, 2], [0, 1, 3], [0, 1, 2, 3, 4]]⟩,
+   [(.dest (.dev 4 (some 3)), 1), (.dest (.dev 5 (some 1)), 2), (.q (.dev 4 (some 3)), 3), (.q (.dev 5 (some 1)), 2),
+    (.qw 1 (.dev 4 (some 3)) "feature/x", 3), (.qw 1 (.dev 5 (some 1)) "feature/x", 4)],
+   [(4, some 3), (5, some 1)], [], [], true, false⟩
+
+/-- the same queue completely written -/
+def qvFull : Sys := { qvHalf with remote := qvHalf.remote.set (.q (.dev 5 (some 1))) 4 }
+
+/-- Non-vacuity: the half-written queue is refused (`MasterQueueLateVsInt`, `QueueInclusionIssue`), the complete one is accepted and its
+    merge moves both destinations to the queue commits. -/
+example : errorsOf qvHalf = some [.MasterQueueLateVsInt, .QueueInclusionIssue] ∧
+    (evalQueues qvHalf [1] []).ops.length = 0 ∧
+    validated qvFull = true ∧
+    (observable qvFull (evalQueues qvFull [1] []) noRej 1).get (.dest (.dev 4 (some 3))) = some 3 ∧
+    (observable qvFull (evalQueues qvFull [1] []) noRej 1).get (.dest (.dev 5 (some 1))) = some 4 := by decide
+
+/-- `CascadeOK` cannot be dropped: a stabilization branch whose development branch is missing lies on no merge
+    path; its queue is only validated horizontally. Here stabilization/5.1.5 (commit 1) and development/10.0
+    (commit 2, containing 1) carry pull request 1, whose queue commit on 5.1.5 (3) is NOT contained in its queue
+    commit on 10.0 (4): the validation passes and the merge breaks inclusion. The state is not reachable through
+    Bert-E (`create_branch` and every pull-request evaluation refuse a cascade without development/5.1). -/
+def qvNoDev : Sys :=
+  ⟨⟨[[0], [0, 1], [0, 1, 2], [0, 1, 3], [0, 1, 2, 4]]⟩,
+   [(.dest (.stab 5 1 5), 1), (.dest (.dev 10 (some 0)), 2), (.q (.stab 5 1 5), 3), (.q (.dev 10 (some 0)), 4),
+    (.qw 1 (.stab 5 1 5) "bugfix/x", 3), (.qw 1 (.dev 10 (some 0)) "bugfix/x", 4)],
+   [(10, some 0)], [], [], true, false⟩
+
+theorem C01_queue_validated_needs_cascade :
+    qvNoDev.g.le 1 2 = true ∧ validated qvNoDev = true ∧
+    (observable qvNoDev (evalQueues qvNoDev [1] []) noRej 1).get (.dest (.stab 5 1 5)) = some 3 ∧
+    (observable qvNoDev (evalQueues qvNoDev [1] []) noRej 1).get (.dest (.dev 10 (some 0))) = some 4 ∧
+    qvNoDev.g.le 3 4 = false := by decide
 
 end BertE.C01
